@@ -27,7 +27,14 @@ type PropCfg struct {
 	Level    string   `json:"level"`    // proof | other
 	Bounded  []string `json:"bounded"`  // descriptions of bounded stand-ins (never counted as proved)
 	Undecided []string `json:"undecided"` // clauses of the property this family does not decide
+	FrameScan []FrameScanCfg `json:"frame_scan"` // fields that only the listed functions may store to
 	AlwaysReplay bool  `json:"always_replay"` // the harness carries a bounded stand-in: run it on every check
+}
+
+type FrameScanCfg struct {
+	Struct  string   `json:"struct"`
+	Field   string   `json:"field"`
+	Allowed []string `json:"allowed"`
 }
 
 type Finding struct {
@@ -311,6 +318,22 @@ func cmdCheck(args []string) int {
 		for _, n := range ur.u.Notes() {
 			notes[n] = true
 		}
+	}
+	// package-wide frame scans: stores to a protected field outside the functions under contract
+	for _, fsc := range cfg.FrameScan {
+		allowed := map[string]bool{}
+		for _, a := range fsc.Allowed {
+			allowed[a] = true
+		}
+		writers := p.FrameScan(fsc.Struct, fsc.Field)
+		var bad []string
+		for _, w := range writers {
+			if !allowed[w] {
+				bad = append(bad, w)
+			}
+		}
+		o := vc.ScanObligation(fmt.Sprintf("framescan(%s.%s)", fsc.Struct, fsc.Field), fmt.Sprintf("only %v store to %s.%s (found: %v)", fsc.Allowed, fsc.Struct, fsc.Field, writers), len(bad) == 0, fmt.Sprintf("unlisted writers: %v", bad))
+		obls = append(obls, o)
 	}
 	timeout := 10 * time.Second
 	if *tier == "thorough" {
